@@ -113,6 +113,10 @@ def make(shape: Dict[str, Any]) -> Any:
                 test_pkt = chain_packet(ctx, cells, broken, direction, 'chain_')[0]  # a deep compression-pointer chain (query: forward, response: backward)
             else:
                 test_pkt = SymPacket(hdr + body)
+            if shape.get('cancel_lookup'):
+                # the application gives up on its lookup in the very loop iteration in which the answer arrives: the task is cancelled
+                # but has not run yet, so its listener and its (now cancelled) wake-up future are still registered
+                lookup.cancel()
             try:
                 proto.datagram_received(test_pkt, src)  # type: ignore[arg-type]
                 loop.run_ready()
@@ -309,6 +313,8 @@ def obligations(tier: str) -> List[Obligation]:
     for scope, tail in ((3, 16), (3, 15), (3, 0), (0, 15)) if tier == 'quick' else [(sc, tl) for sc in (0, 3) for tl in (0, 1, 4, 15, 16)]:
         shape = {'payload': 0, 'counts': [0, 0, 0, 0], 'flags': 0, 'lead_question': False, 'timing': 'fixed', 'scoped_aaaa': True, 'scoped_aaaa_tail': tail, 'v6_scope': scope}
         obs.append(Obligation(f'survive[scoped-aaaa-for-pending-lookup;scope={scope};address-octets={tail}]', make(shape), 'survive-aaaa', shape, timeout=280 if tier == 'quick' else 1500))
+    shape = {'payload': 0, 'counts': [0, 0, 0, 0], 'flags': 0, 'lead_question': False, 'timing': 'fixed', 'scoped_aaaa': True, 'scoped_aaaa_tail': 16, 'v6_scope': 3, 'cancel_lookup': True}
+    obs.append(Obligation('survive[answer-for-a-cancelled-lookup]', make(shape), 'survive-aaaa', shape, timeout=280 if tier == 'quick' else 1500))
     for name, counts, flags, lead, p in templates[:2]:
         shape = {'payload': min(p, 3), 'counts': counts, 'flags': flags, 'lead_question': lead, 'timing': 'fixed', 'v6_scope': 3}
         obs.append(Obligation(f'survive[{name};payload={min(p, 3)};v6-source]', make(shape), 'survive', shape, timeout=280 if tier == 'quick' else 1500))
